@@ -18,8 +18,8 @@ Opts == [file : FileClasses, columns : ColumnOpts, categories : CategoryOpts, in
          pandas_nulls : NullOpts, dtypes : DtypeOpts, handle : HandleOpts]
 (* option combinations the API defines: a dtypes override and an explicit index are only explored with all columns *)
 Sensible(o) == /\ (o.dtypes # "none" => o.columns = "all")
-               /\ (o.index = "name" => o.columns = "all")
-               /\ (o.handle # "whole" => o.dtypes = "none" /\ o.index # "name" /\ o.categories \in {"none", "list"})
+               /\ (o.index \in {"name", "time"} => o.columns = "all")
+               /\ (o.handle # "whole" => o.dtypes = "none" /\ o.index \notin {"name", "time"} /\ o.categories \in {"none", "list"})
 Init == opt \in {o \in Opts : Sensible(o)} /\ pc = "predict"
 PredictStep == pc = "predict" /\ pc' = "read" /\ UNCHANGED opt
 ReadStep == pc = "read" /\ pc' = "done" /\ UNCHANGED opt
@@ -30,7 +30,7 @@ Export == pc = "done" => PrintT(ToJson(opt))
 FilesAll == {"own", "own_nometa", "foreign", "hive", "drill"}
 ColsAllOpts == {"all", "subset", "reordered"}
 CatsAll == {"none", "list", "dict", "empty"}
-IdxAll == {"none", "false", "name"}
+IdxAll == {"none", "false", "name", "time"}     \* "time": a timestamp column of micro- or millisecond resolution as the index
 NullsBoth == {TRUE, FALSE}
 DtypesBoth == {"none", "override"}
 HandlesAll == {"whole", "first", "rest", "empty", "pickled"}
